@@ -281,7 +281,12 @@ pub fn run_history(a: &mut Lsp, b: &mut Lsp, s0: &str, changes: &[Vec<Change>], 
         }
         a.notify("textDocument/didChange", json!({"textDocument": {"uri": uri, "version": version}, "contentChanges": cc}));
         if on_disk && version % 2 == 0 {
-            a.notify("workspace/didChangeWatchedFiles", json!({"changes": [{"uri": uri, "type": if version % 4 == 0 { 1 } else { 2 }}]}));
+            // created / changed, and once the file is removed behind the editor's back: deleted
+            let typ = if version % 6 == 0 { 3 } else if version % 4 == 0 { 1 } else { 2 };
+            if typ == 3 {
+                let _ = std::fs::remove_file(&file);
+            }
+            a.notify("workspace/didChangeWatchedFiles", json!({"changes": [{"uri": uri, "type": typ}]}));
             st.watch_events += 1;
         }
     }
